@@ -88,14 +88,32 @@ def feature_key(text: str) -> str:
     return "+".join(feats) or "plain"
 
 
-def real_verdict(formula, dt, grammar):
+class _EvalTimeout(BaseException):
+    pass
+
+
+def _on_alarm(signum, frame):
+    raise _EvalTimeout()
+
+
+def real_verdict(formula, dt, grammar, limit_s: int = 60):
+    """evaluate() with a wall-clock guard: an evaluation that does not come back is no verdict (termination is not
+    what C06 states); it is counted and the case is written to the evidence notes"""
+    import signal
     from isla.evaluator import evaluate
 
+    old = signal.signal(signal.SIGALRM, _on_alarm)
+    signal.alarm(limit_s)
     try:
         r = evaluate(formula, dt, grammar)
         return True if r.is_true() else (False if r.is_false() else None)
+    except _EvalTimeout:
+        return ("raises", "no-answer-within-%ds" % limit_s, "")
     except Exception as e:  # noqa
         return ("raises", type(e).__name__, str(e)[:100])
+    finally:
+        signal.alarm(0)
+        signal.signal(signal.SIGALRM, old)
 
 
 def check_case(ctx: Ctx, g, gname: str, text: str, open_t: T.PT, completions: List[T.PT], origin: str):
@@ -141,6 +159,8 @@ def check_case(ctx: Ctx, g, gname: str, text: str, open_t: T.PT, completions: Li
             # the property speaks about the verdicts evaluate() RETURNS on open trees; an exception is no verdict
             # (that evaluation never raises is claimed for closed trees only - C03): counted, not reported
             ctx.count("evaluate_raises_on_open_tree", f"{v[1]}:{key}")
+            if v[1].startswith("no-answer"):
+                ctx.coverage.setdefault("notes", []).append(f"evaluate() gave no answer within the guard: {text[:160]!r} on {replay['open_tree_str'][:80]!r}")
             break
         if v is None:
             continue
